@@ -149,17 +149,15 @@ Example C06_nonvacuous :
     map (fun m => (m_offset m, m_before m, m_after m)) (snd r) = [(0, 0, 0); (0, 8, 21); (0, 11, 14); (0, 18, 13); (8, 0, 6)].
 Proof.
   split.
-  - assert (B : forall w, 0 <= w < 100 -> 0 <= w < M1) by (unfold M1; lia).
-    repeat (constructor; [cbn [wf_item]; repeat split; try (apply wf_ity; [auto|lia]); try (left; reflexivity); try (apply B; lia)|]).
-    constructor.
+  - assert (Hbf : forall s w, pow2 s -> s <= 8 -> 0 <= w < 100 -> wf_item (INamed (ity s) 0 (Some w))).
+    { intros s w Hp Hs Hw. cbn [wf_item]. split; [apply wf_ity; assumption|]. split; [left; reflexivity|unfold M1; lia]. }
+    constructor; [wf_plain0|]. constructor; [apply Hbf; [auto|lia|lia]|]. constructor; [apply Hbf; [auto|lia|lia]|].
+    constructor; [apply Hbf; [auto|lia|lia]|]. constructor; [wf_ubf|]. constructor; [apply Hbf; [auto|lia|lia]|]. constructor.
   - eexists. split; [vm_compute; reflexivity|]. split; [vm_compute; discriminate|]. split; reflexivity.
 Qed.
 
 Example C06_nonvacuous_enum :
-  Forall wf_einput [Some (2147483647, tint); None; None] /\
+  Forall wf_einput [Some (2147483647, tint); None; None; Some (M1, tint); Some (2147483648, tuint)] /\
   enum_type None [Some (2147483647, tint); None; None]
     = Ok (tuint, [(2147483647, mkI 100 4 false); (2147483648, mkI 100 4 false); (2147483649, mkI 100 4 false)]).
-Proof.
-  split; [|vm_compute; reflexivity].
-  repeat constructor; cbn; try (unfold W64; lia). right; right; left; reflexivity.
-Qed.
+Proof. split; [apply enum_examples|apply enum_examples]. Qed.
